@@ -255,6 +255,26 @@ pub fn profile(name: &str) -> Option<Profile> {
             sinks: [6, 2, 2, 1],
             ..BASE
         },
+        // few, very long sessions: hundreds of submissions, the history wraps many times
+        "marathon" => Profile {
+            name: "marathon",
+            units: (600, 1500),
+            w_enter: 30,
+            m_type_line: 20,
+            m_resubmit: 15,
+            m_recall_edit: 10,
+            w_up: 15,
+            w_down: 8,
+            m_fill: 0,
+            p_write: 6,
+            p_prompt: 4,
+            p_set: 3,
+            p_handler: 10,
+            p_inside: 10,
+            hist_caps: [0, 1, 8, 10, 6, 2],
+            cmd_caps: [0, 1, 4, 10, 8, 2],
+            ..BASE
+        },
         "tiny" => Profile {
             name: "tiny",
             cmd_caps: [6, 6, 12, 1, 0, 0],
@@ -271,7 +291,7 @@ pub fn profile(name: &str) -> Option<Profile> {
 }
 
 pub const PROFILES: &[&str] = &[
-    "mix", "decode", "edit", "term", "hist", "tab", "frame", "flush", "rxfault", "faultrand", "tiny",
+    "mix", "decode", "edit", "term", "hist", "tab", "frame", "flush", "rxfault", "faultrand", "tiny", "marathon",
 ];
 
 const MULTI: &[char] = &['é', 'ж', 'λ', 'ß', '日', '本', '€', '佐', '😀', '𑿁', 'Ю', '字'];
